@@ -12,10 +12,10 @@ import vlib
 TICK = 1 << 30
 
 
-def tw_cfg(timers, maxtime, geom="small"):
-    return ("SPECIFICATION Spec\nCONSTANTS\n Timers = {%s}\n MaxTime = %d\n Buckets <- B_%s\n Shift <- S_%s\n Clamp = TRUE\n"
+def tw_cfg(timers, maxtime, geom="small", due=True):
+    return ("SPECIFICATION Spec\nCONSTANTS\n Timers = {%s}\n MaxTime = %d\n Buckets <- B_%s\n Shift <- S_%s\n Clamp = TRUE\n Due = %s\n"
             "INVARIANTS NoEarlyExpiry TypeOK\nPROPERTIES SweptWithinTick\nCHECK_DEADLOCK FALSE\n" %
-            (", ".join(map(str, range(1, timers + 1))), maxtime, geom, geom))
+            (", ".join(map(str, range(1, timers + 1))), maxtime, geom, geom, "TRUE" if due else "FALSE"))
 
 
 def sweep_scenarios(quick, seed):
@@ -52,6 +52,16 @@ def sweep_scenarios(quick, seed):
                     continue
                 out.append({"ttl": ttl, "jump": jump, "later": 3 * ttl + 5 * TICK, "op": op, "sized": k % 2, "syncexec": (k // 2) % 2, "warm": 0,
                             "max": 4 + k % 5})
+    # the write's event is replayed in the same tick as a sweep that ran (at a later clock value) without knowing the entry
+    k = 0
+    for ttl in (1000, TICK // 2, TICK, 3 * TICK):
+        for jump in (ttl + 2 * TICK, ttl + 10 * TICK, ttl + 70 * TICK):
+            k += 1
+            if quick and k % 2 != seed % 2:
+                continue
+            # (the sweep runs at 5 ticks + jump; 1000 ns later the quiescent run is still inside that tick, and more than a tick after both the
+            # deadline and the return of the write)
+            out.append({"ttl": ttl, "jump": jump, "later": 1000, "op": "late.set", "sized": k % 2, "syncexec": (k // 2) % 2, "warm": 0, "max": 0})
     # stale-node eviction while a load of the key is in flight (C08)
     for op in ("ld.staleevict.inv", "ld.staleevict.set"):
         out.append({"ttl": 0, "jump": 0, "later": 0, "op": op, "sized": 1, "syncexec": 0, "warm": 0, "max": 0})
@@ -228,6 +238,8 @@ def run(prop, tier, replay=None):
             return r
         inst = [("t1x40", tw_cfg(1, 40)), ("t2x12", tw_cfg(2, 12))] if quick else [("t1x64", tw_cfg(1, 64)), ("t2x20", tw_cfg(2, 20)), ("t3x6tiny", tw_cfg(3, 8, "tiny"))]
         mc_futs = [ex.submit(mc, t, c) for t, c in inst] if not replay else []
+        # the first repair of F8 (deadline clamped into the slot of the current tick) must violate SweptWithinTick (F23)
+        neg_fut = ex.submit(mc, "t1x24_nodue", tw_cfg(1, 24, due=False)) if not replay else None
         wbin = vlib.build_test_binary(work, "expiration")
         obin = vlib.build_test_binary(work, "otter")
 
@@ -283,6 +295,8 @@ def run(prop, tier, replay=None):
                     r["deadlinepassed"] = 1 if sc["ttl"] <= total else 0
                     if sc["op"].startswith(("mass.", "ld.")):
                         r["mustsweep"], r["deadlinepassed"] = 0, 1
+                    if sc["op"].startswith("late."):
+                        r["mustsweep"], r["deadlinepassed"] = 1, 1
                     if sc["op"].startswith(("read.", "gate.", "sia.")):
                         # the extended deadline is at most (ttl - 1000) + ttl after the write; later = 3 ttl + 5 ticks lies beyond it
                         r["mustsweep"], r["deadlinepassed"] = 1, 1
@@ -347,6 +361,13 @@ def run(prop, tier, replay=None):
             sc = recs[x["rec"] - 1][1]
             path = vlib.save_replay(prop, "race-%s-%d" % (sc["op"], x["rec"]), sc)
             violations.append((x["pred"], x["detail"], path))
+        if neg_fut is not None:
+            r = neg_fut.result()
+            hit = "SweptWithinTick is violated" in r["out"]
+            cov["mc"].append({"instance": r["tag"], "distinct": r["distinct"], "generated": r["generated"], "wall_s": round(r["wall"], 1),
+                              "expected": "violates SweptWithinTick (F23)", "violated": hit})
+            if not hit:
+                broken.append("TimerWheel model with Due = FALSE must violate SweptWithinTick (F23): " + r["out"][-800:])
         for fu in mc_futs:
             r = fu.result()
             cov["mc"].append({"instance": r["tag"], "distinct": r["distinct"], "generated": r["generated"], "wall_s": round(r["wall"], 1)})
